@@ -113,7 +113,16 @@ impl TypeChecker {
                     ResolvedType::Bool
                 }
             }
-            BinaryOp::And | BinaryOp::Or => ResolvedType::Bool,
+            BinaryOp::And | BinaryOp::Or => {
+                // both operands are conditions (the generated `&&` / `||` accept nothing else)
+                for (operand, ty) in [(left, &left_ty), (right, &right_ty)] {
+                    if !self.types_compatible(ty, &ResolvedType::Bool) {
+                        self.errors
+                            .push(errors::type_mismatch("bool", &ty.to_string(), operand.span));
+                    }
+                }
+                ResolvedType::Bool
+            }
             BinaryOp::In | BinaryOp::NotIn => {
                 let lhs_is_str = is_str_like(&left_ty);
                 let rhs_is_str = is_str_like(&right_ty);
